@@ -52,7 +52,7 @@ RULE = ("one case = one generated multi-player game history (1-4 players, 1-3 ba
 PROBES = ["turn_change", "restore_with_progress", "extra_ball", "early_end_game", "new_game", "players_3plus",
           "dispatch_live", "dispatch_transient", "dispatch_dead_in_game", "dispatch_no_game", "hook_post",
           "hold_window", "lb_complete", "lb_timeout", "dl_fired", "timer_tick", "m2_restart_next_ball",
-          "histories_differ", "may_applied", "may_skipped", "op_on_timer_deadline", "mode_started_while_ball_ending", "mode_restarted_before_cleanup"]
+          "histories_differ", "may_applied", "may_skipped", "op_on_timer_deadline", "mode_started_while_ball_ending"]
 REAL = ["mpf.core.player.Player", "mpf.modes.game.code.game.Game", "mpf.core.mode.Mode / ModeController",
         "mpf.devices.logic_blocks (Counter, Accrual, Sequence)", "mpf.devices.shot / shot_group / shot_profile",
         "mpf.devices.achievement", "mpf.devices.timer", "mpf.core.enable_disable_mixin",
@@ -783,6 +783,15 @@ class Harness:
         # views oracle
         curp = self.cur_pnum()
         for mn in MODES:
+            att = self.dev["attached"][mn]
+            if self.late_start.get(mn) and att is not None and curp is not None and att != curp:
+                # the mode that was started after ball_will_end still has the previous player's devices loaded
+                # (live *or* already stopping: its handlers still act on that player's state, and while it is
+                # stopping ModeController._ball_starting cannot restart it for the player who is up now)
+                self.bad("binding", "%s was started while the ball was ending and outlives the ball" % mn,
+                         "%s: game mode %s was started after ball_will_end; ball end did not stop it: its devices are "
+                         "still loaded for player %r (mode %s) while player %r is up"
+                         % (where, mn, att, self.mode_class(mn), curp))
             if self.mode_class(mn) != LIVE:
                 continue
             att = self.dev["attached"][mn]
